@@ -246,9 +246,6 @@ pub fn build(quick: bool) -> Cat {
     add2(c, "TimeWith::build(microsecond)", &pl.times, &pl.i16s, |t, v| t.with().microsecond(*v).build());
     add2(c, "TimeWith::build(nanosecond)", &pl.times, &pl.i16s, |t, v| t.with().nanosecond(*v).build());
     add2(c, "TimeWith::build(subsec_nanosecond)", &pl.times, &pl.i32s, |t, v| t.with().subsec_nanosecond(*v).build());
-    add3(c, "TimeWith::build(nanosecond,subsec_nanosecond)", &pl.times, &pl.i16s, &pl.i32s, |t, a, b| {
-        t.with().nanosecond(*a).subsec_nanosecond(*b).build()
-    });
     add3(c, "TimeWith::build(millisecond,microsecond)", &pl.times, &pl.i16s, &pl.i16s, |t, a, b| t.with().millisecond(*a).microsecond(*b).build());
     add2(c, "Time::series", &pl.times, &pl.spans, |t, s| take1000(t.series(*s)));
 
@@ -341,6 +338,8 @@ pub fn build(quick: bool) -> Cat {
     add2(c, "Zoned::checked_sub", &pl.zoneds, &pl.durs, |z, x| with_dur!(x, |v| z.checked_sub(v)));
     add3(c, "Zoned::until(largest)", &pl.zoneds_m, &pl.zoneds_m, &pl.units, |a, b, u| a.until((*u, b)));
     add3(c, "Zoned::since(largest)", &pl.zoneds_m, &pl.zoneds_m, &pl.units, |a, b, u| a.since((*u, b)));
+    add2(c, "Zoned::until(largest,same-zone-pairs)", &pl.zoned_pairs, &pl.units, |ab, u| ab.0.until((*u, &ab.1)));
+    add2(c, "Zoned::since(largest,same-zone-pairs)", &pl.zoned_pairs, &pl.units, |ab, u| ab.0.since((*u, &ab.1)));
     add3(c, "Zoned::until(smallest,increment,mode)", &pl.zoneds_s, &pl.zoneds_s, &pl.ros, |a, b, o| {
         a.until(ZonedDifference::new(b).smallest(o.unit).increment(o.inc).mode(o.mode))
     });
@@ -461,7 +460,7 @@ pub fn build(quick: bool) -> Cat {
     add1(c, "Offset::negate", &pl.offsets, |a| ok(a.negate()));
     add2(c, "Offset::round", &pl.offsets, &pl.ros, |a, o| a.round(OffsetRound::new().smallest(o.unit).increment(o.inc).mode(o.mode)));
     add1(c, "Offset::try_from(SignedDuration)", &pl.sdurs, |d| Offset::try_from(*d));
-    add4(c, "OffsetConflict::resolve", &pl.conflicts, &pl.dts_m, &pl.offsets, &pl.zones, |cd, dt, o, tz| {
+    add4(c, "OffsetConflict::resolve", &pl.conflicts, &head(&pl.dts_m, 116), &pl.offsets, &pl.zones, |cd, dt, o, tz| {
         cd.0.resolve(*dt, *o, tz.clone()).and_then(|az| az.disambiguate(cd.1.to()))
     });
 
@@ -504,7 +503,6 @@ pub fn build(quick: bool) -> Cat {
         tz.clone().into_ambiguous_zoned(*d).disambiguate(m.to())
     });
 
-    let _ = head::<i8>;
     let _: Option<(Disamb, Zoned)> = None;
     cat
 }
